@@ -373,10 +373,10 @@ func genLZBoundary(n int, seed uint64) []byte {
 
 var shapeNames = []string{"text", "crlf", "xml", "utf8-2", "utf8-3", "utf8-4", "utf8-wide", "utf8-dense", "dna", "dna-mixed", "base64", "hex", "numeric",
 	"elf", "pe", "wav8m", "wav16s", "bmp", "runs", "sparse", "skew1", "skew3", "const", "random", "zipmagic", "period3", "period255", "period65535",
-	"rot256", "fib", "raredom", "lzbound", "mixed", "longlit", "allruns", "rarerun", "zipmagic-text"}
+	"rot256", "fib", "raredom", "lzbound", "mixed", "longlit", "allruns", "rarerun", "zipmagic-text", "crlf-records"}
 
 // a smaller set for the expensive products
-var coreShapes = []string{"text", "utf8-3", "utf8-wide", "utf8-dense", "dna", "elf", "wav16s", "runs", "sparse", "skew3", "const", "random", "rot256", "lzbound", "period255", "mixed", "longlit", "allruns", "rarerun"}
+var coreShapes = []string{"text", "utf8-3", "utf8-wide", "utf8-dense", "dna", "elf", "wav16s", "runs", "sparse", "skew3", "const", "random", "rot256", "lzbound", "period255", "mixed", "longlit", "allruns", "rarerun", "crlf-records"}
 
 // genAllRuns: runs of EVERY byte value (descending from 0xFF, so that the escape symbols of the
 // run-length family - 0xFB, 0xFE, 0xFF - come first), with run lengths cycling through the
@@ -538,6 +538,29 @@ func shape(name string, n int) []byte {
 		out := genText(n, seed, "\n")
 		copy(out, []byte{'P', 'K', 3, 4, 20, 0, 0, 0})
 		return out
+	case "crlf-records":
+		// CR+LF text made of fixed-width records (64 bytes incl. CR LF) after a header line that is one
+		// byte longer: every CR sits at an offset = 63 (mod 64), so every block boundary at a multiple
+		// of 64 falls BETWEEN a CR and its LF (blocks start with a lone LF and end with a lone CR)
+		out := make([]byte, 0, n+70)
+		words := genText(n+200, seed, " ")
+		wi := 0
+		line := func(w int) {
+			for k := 0; k < w; k++ {
+				ch := words[wi%len(words)]
+				wi++
+				if ch == '\n' || ch == '\r' {
+					ch = ' '
+				}
+				out = append(out, ch)
+			}
+			out = append(out, '\r', '\n')
+		}
+		line(63)
+		for len(out) < n {
+			line(62)
+		}
+		return out[:n]
 	case "longlit":
 		// a compressible block that contains one very long match-free stretch (literal run lengths
 		// beyond the 1- and 3-byte length encodings of the LZ family: >= 65797 bytes)
